@@ -73,3 +73,33 @@ func encodeTexts(mode, hclText, yamlText string, sx int64) (string, string, bool
 	}
 	return "", "", false
 }
+
+// ---- size (round 6): token pad=<KiB>.  A comment block of that many KiB is inserted into BOTH files at the top-level
+// item boundary nearest to 35 % of the text (start of the file when there is none in front of the end): the description
+// goes on AFTER the padding.  Comments are no part of the description in either syntax; a front-end that reads only the
+// first n bytes of a file (a size limit, one Read into a fixed buffer, a line cap) loses what follows.  Sizes are drawn
+// around 64 KiB, 1 MiB and 4 MiB.
+
+var padSizes = []int{63, 64, 65, 1023, 1024, 1025, 1100, 2048, 4096, 4200}
+
+// oneLine (token pl=1): the padding is ONE comment line of that length (a reader with a line cap — bufio.Scanner's
+// 64 KiB token limit — fails or cuts there)
+func padText(text string, kib int, hcl, oneLine bool) string {
+	off := cutPoint(text, 350, hcl)
+	if off >= len(text) {
+		off = 0
+	}
+	line := "# " + strings.Repeat("padding ", 15) + "\n"
+	n := kib * 1024
+	if oneLine {
+		return text[:off] + "# " + strings.Repeat("long line ", n/10) + "\n" + text[off:]
+	}
+	var b strings.Builder
+	b.Grow(len(text) + n + 2*len(line))
+	b.WriteString(text[:off])
+	for w := 0; w < n; w += len(line) {
+		b.WriteString(line)
+	}
+	b.WriteString(text[off:])
+	return b.String()
+}
